@@ -707,3 +707,11 @@ def replay(ctx, hdr, body):
     text.append("recorded: %s" % hdr.get("what", ""))
     text.append("replay verdict: %s" % ("property holds on this input" if ok else "property violated on this input"))
     return ok, "\n".join(text)
+
+
+# ---- additional parts (whole-library composite models); missing modules are skipped
+from props import _extend
+_extend.extend(globals(), [
+    "C16_lib1",
+    "C16_lib2",
+])
